@@ -12,7 +12,7 @@ import (
 func init() {
 	register("C03", &ruleSet{
 		run:    runC03,
-		floors: map[string]int{"O1": 4, "O2": 2, "O3": 6, "O4": 5, "O5": 2},
+		floors: map[string]int{"O1": 3, "O2": 1, "O3": 6, "O4": 5, "O5": 2},
 		explain: "Decides structurally for both partitioned strategies: (O1) admission predicate: a request whose partition was found is refused on exactly the paths that " +
 			"established total.busy >= total.limit AND bin.busy >= bin.limit (comparator directions and operand fields checked; IsLimitExceeded is busy >= limit of the bin), " +
 			"and granted on every other such path; the predicate strategy visits partitions in registration order and decides inside the first matching iteration; no match " +
@@ -52,7 +52,7 @@ func c03Discover(p *Prog, l *Ledger) []*c03Strat {
 			if call, ok := ins.(*ssa.Call); ok {
 				c := p.CallOf(call)
 				if c.Static != nil && c.Recv != nil && c.Static.Name() == "Acquire" && p.InPkg(c.Static, "strategy") {
-					s.Part = derefNamed(c.Recv.Type())
+					s.Part = derefNamed(c.Obj().Type())
 				}
 			}
 			if d, ok := p.DeltaOf(ins); ok && types.Identical(d.Field.Type, T) && d.By == 1 {
@@ -76,17 +76,40 @@ func c03Discover(p *Prog, l *Ledger) []*c03Strat {
 				}
 			})
 		}
+		// the partition's state may live in a struct embedded in the partition type (shared bookkeeping)
+		partTypes := []*types.Named{s.Part}
+		if pst, ok := s.Part.Underlying().(*types.Struct); ok {
+			for i := 0; i < pst.NumFields(); i++ {
+				if f := pst.Field(i); f.Embedded() {
+					if nt := derefNamed(f.Type()); nt != nil {
+						if _, isStruct := nt.Underlying().(*types.Struct); isStruct {
+							partTypes = append(partTypes, nt)
+						}
+					}
+				}
+			}
+		}
+		inPart := func(t *types.Named) bool {
+			for _, pt := range partTypes {
+				if t != nil && types.Identical(t, pt) {
+					return true
+				}
+			}
+			return false
+		}
 		if s.Update != nil {
 			for _, a := range p.Accesses(s.Update) {
-				if a.Write && types.Identical(a.Field.Type, s.Part) {
+				if a.Write && inPart(a.Field.Type) {
 					s.BinLim = a.Field
 				}
 			}
 		}
-		st := s.Part.Underlying().(*types.Struct)
-		for i := 0; i < st.NumFields(); i++ {
-			if isFloat(st.Field(i).Type()) {
-				s.Percent = FieldRef{s.Part, i, st.Field(i).Name()}
+		for _, pt := range partTypes {
+			st := pt.Underlying().(*types.Struct)
+			for i := 0; i < st.NumFields(); i++ {
+				if isFloat(st.Field(i).Type()) {
+					s.Percent = FieldRef{pt, i, st.Field(i).Name()}
+				}
 			}
 		}
 		// sources: fields of T whose type mentions the partition type
@@ -323,15 +346,15 @@ func runC03(p *Prog, l *Ledger) {
 				for _, f := range pa.Facts {
 					if call, ok := f.Cond.(*ssa.Call); ok && p.CallOf(call).Static == s.Exceeded {
 						binFull, binKnown = f.True, true
-						binObj = pa.Resolve(p.CallOf(call).Recv, f.Step)
+						binObj = pa.Resolve(p.CallOf(call).Obj(), f.Step)
 					}
 				}
 				var charged ssa.Value
 				pa.Each(func(step int, ins ssa.Instruction) bool {
 					if call, ok := ins.(*ssa.Call); ok {
 						c := p.CallOf(call)
-						if c.Static != nil && c.Recv != nil && c.Static.Name() == "Acquire" && types.Identical(derefNamed(c.Recv.Type()), s.Part) {
-							charged = pa.Resolve(c.Recv, step)
+						if c.Static != nil && c.Recv != nil && c.Static.Name() == "Acquire" && types.Identical(derefNamed(c.Obj().Type()), s.Part) {
+							charged = pa.Resolve(c.Obj(), step)
 						}
 					}
 					return true
@@ -402,7 +425,7 @@ func runC03(p *Prog, l *Ledger) {
 				}
 				if call, ok := ins.(*ssa.Call); ok {
 					c := p.CallOf(call)
-					if c.Static == s.Exceeded || (c.Static != nil && c.Static.Name() == "Acquire" && c.Recv != nil && types.Identical(derefNamed(c.Recv.Type()), s.Part)) || c.Name == "dynamic" {
+					if c.Static == s.Exceeded || (c.Static != nil && c.Static.Name() == "Acquire" && c.Recv != nil && types.Identical(derefNamed(c.Obj().Type()), s.Part)) || c.Name == "dynamic" {
 						interesting = true
 					}
 				}
@@ -509,8 +532,8 @@ func c03Coverage(p *Prog, l *Ledger, locks *LockInfo, s *c03Strat) {
 			if c.Static != s.Update {
 				return
 			}
-			u := upd{recv: c.Recv, arg: c.Args[0], ins: ins}
-			if src := c03SourceOf(c.Recv, s); src != nil {
+			u := upd{recv: c.Obj(), arg: c.Args[0], ins: ins}
+			if src := c03SourceOf(c.Obj(), s); src != nil {
 				u.src = src
 			}
 			out = append(out, u)
@@ -591,7 +614,7 @@ func c03Coverage(p *Prog, l *Ledger, locks *LockInfo, s *c03Strat) {
 					if c.Static != s.Update {
 						return true
 					}
-					if sf := c03SourceOf(c.Recv, s); sf != nil && sameField(*sf, src) {
+					if sf := c03SourceOf(c.Obj(), s); sf != nil && sameField(*sf, src) {
 						if flooredParam(pa, c.Args[0], param, step) == "" {
 							ok = true
 						}
